@@ -98,9 +98,10 @@ CHECKS = {
     },
     "C16": {
         "module": "Vanguard.Props.C16", "namespace": "Vanguard.C16", "streams": ["pingpong", "e2e"],
-        "partial": "proved per adapter step and for whole Write calls of both response writers (re-encoding path: everything flushed when Write "
-                   "returns; re-framing path: everything flushed whenever the writer is between messages; no Read served from the message in hand "
-                   "touches the client's body; the exact reader never exceeds its message); for whole runs the progress predicates Spec.respStepOk/reqStepOk are evaluated on the "
+        "partial": "response direction proved for whole runs of the model (ProgInv is an invariant of every handler script: after every handler call, "
+                   "while the RPC is open and the client protocol streams, everything written on the re-encoding path is flushed and on the re-framing "
+                   "path everything is flushed whenever the writer is between messages); request direction proved per Read only (no Read served from the "
+                   "message in hand touches the client's body; the exact reader never exceeds its message) - for whole runs Spec.reqStepOk is evaluated on the "
                    "implementation's progress logs and a lock-step client in the harness flags the first Read that would block for ever - "
                    "checked, not proved; a real HTTP/2 connection (flow control, net/http's own buffering) is replaced by a recorder whose "
                    "Flush offsets define what the client has received",
